@@ -1,19 +1,20 @@
 #!/bin/bash
 # Re-runs every seeded property-breaking change (seeded/<name>/patch.diff) against the check of the property it was written to
 # break (scratch worktree + VERIF_REPO).  Output .work/seeded_matrix.txt; a line without VIOLATION is a missed change.
-# usage: tools/seeded_matrix.sh [name-prefix] [tier]
+# usage: tools/seeded_matrix.sh [name-prefix] [tier] [tag]   (private output files .work/seeded_matrix.<tag>.*, copied to the untagged names at the end)
 cd /verif
-out=.work/seeded_matrix.txt; : > $out; : > .work/seeded_matrix.jsonl
+tag=${3:-$$}
+out=.work/seeded_matrix.$tag.txt; : > $out; export JL=/verif/.work/seeded_matrix.$tag.jsonl; : > $JL
 run_one() {
   d=$1; name=$(basename $d); id=${name%%-*}; tier=${2:-quick}
   wt=/tmp/seedwt-$name
   git -C /repo worktree add -q --detach $wt HEAD || { echo "$name worktree-failed" ; return; }
   if git -C $wt apply $d/patch.diff; then
     full=$(VERIF_REPO=$wt ./check $id --tier $tier 2>&1 | grep -E "^VIOLATION|^KNOWN-FINDING")
-    res=$(echo "$full" | grep VIOLATION | sed -E 's#replay=/verif/(.work/scratch-)?replays/##' | cut -c1-120 | tr '\n' ' ')
+    res=$(echo "$full" | grep VIOLATION | sed -E 's#replay=/verif/(.work/scratch-replays/[^/]*/|replays/)##' | cut -c1-120 | tr '\n' ' ')
     [ -z "$res" ] && res="SILENT"
     echo "$name $id :: $res"
-    python3 - "$name" "$id" "$tier" <<PY >> /verif/.work/seeded_matrix.jsonl
+    python3 - "$name" "$id" "$tier" <<PY >> $JL
 import json, sys
 lines = [l for l in """$full""".split("\n") if l.startswith("VIOLATION")]
 print(json.dumps({"name": sys.argv[1], "id": sys.argv[2], "tier": sys.argv[3], "lines": lines}))
@@ -24,4 +25,5 @@ PY
 export -f run_one
 ls -d /verif/seeded/${1:-C}*/ | xargs -P 5 -I{} bash -c "run_one {} $2" >> $out
 sort -o $out $out
+cp $out .work/seeded_matrix.txt; cp $JL .work/seeded_matrix.jsonl
 echo "runs: $(wc -l < $out)  silent: $(grep -c SILENT $out)"; grep -E "SILENT|does-not-apply" $out
